@@ -212,6 +212,7 @@ func TestVerifC05(t *testing.T) {
 			k.count("kind", "api-tree")
 			k.count("tree-depth", fmt.Sprint(vC05Depth(n)))
 			k.count("tree-nodes", vSizeBucket(vC05CountNodes(n)))
+			k.count("tree-longest-string", vC05StrBucket(vC05MaxStr(n)))
 		case 1:
 			if !c.l[1].isBytes() {
 				k.record(c, vL(vZ(-1)), false)
@@ -252,6 +253,12 @@ func TestVerifC05(t *testing.T) {
 		runOne(c)
 	}
 	r := k.rnd
+	for _, t := range vC05Boundary(r) {
+		runOne(vL(vZ(0), vC05ToSx(t)))
+		b, _ := vC05Build(t, false).MarshalBinary()
+		runOne(vL(vZ(1), vB(append(b, 0, 0, 9))))
+		runOne(vL(vZ(1), vB(b[:len(b)-1])))
+	}
 	n := k.N(4000, 120000)
 	for i := 0; i < n; i++ {
 		switch x := r.intn(20); {
